@@ -618,7 +618,11 @@ enum GroupKeyPart {
     Null,
     Bool(bool),
     Int64(i64),
+    /// Float key, grouped by bit pattern and returned as a float.
+    Float64(u64),
     String(String),
+    /// Any other value type, grouped bit-exactly and returned unchanged.
+    Other(grafeo_common::types::HashableValue),
 }
 
 impl GroupKey {
@@ -634,9 +638,9 @@ impl GroupKey {
                         Value::Null => GroupKeyPart::Null,
                         Value::Bool(b) => GroupKeyPart::Bool(b),
                         Value::Int64(i) => GroupKeyPart::Int64(i),
-                        Value::Float64(f) => GroupKeyPart::Int64(f.to_bits() as i64),
+                        Value::Float64(f) => GroupKeyPart::Float64(f.to_bits()),
                         Value::String(s) => GroupKeyPart::String(s.to_string()),
-                        _ => GroupKeyPart::String(format!("{v:?}")),
+                        _ => GroupKeyPart::Other(grafeo_common::types::HashableValue::new(v)),
                     })
             })
             .collect();
@@ -651,7 +655,9 @@ impl GroupKey {
                 GroupKeyPart::Null => Value::Null,
                 GroupKeyPart::Bool(b) => Value::Bool(*b),
                 GroupKeyPart::Int64(i) => Value::Int64(*i),
+                GroupKeyPart::Float64(bits) => Value::Float64(f64::from_bits(*bits)),
                 GroupKeyPart::String(s) => Value::String(s.clone().into()),
+                GroupKeyPart::Other(v) => v.inner().clone(),
             })
             .collect()
     }
